@@ -431,7 +431,8 @@ impl<'a> Gen<'a> {
         let big = self.r.chance(1, 5);
         if big { amt = offer_res.saturating_mul(1 + self.r.below(3) as u128) / [1u128, 2, 1][self.r.below(3) as usize] + 1; }
         let sender = pick_user(self.r);
-        let mr = match self.r.below(8) { 0 => "1".to_string(), 1 => u128::MAX.to_string(), _ => "-".into() };
+        let mr_pick = self.r.below(10);
+        let mut mr = match mr_pick { 0 => "1".to_string(), 1 => u128::MAX.to_string(), _ => "-".into() };
         let ms = if big { ["900000000000000000", "1000000000000000000", "600000000000000000"][self.r.below(3) as usize].to_string() }
             else if self.r.chance(2, 3) { "500000000000000000".to_string() } else { self.slip() };
         let recv = self.receiver(sender);
@@ -445,6 +446,8 @@ impl<'a> Gen<'a> {
             let out_amt = fwd.split_whitespace().nth(1).and_then(|x| x.parse::<u128>().ok()).unwrap_or(1000);
             let back = match self.r.below(3) { 0 => out_amt, 1 => out_amt / 2 + 1, _ => 1 + self.r.below(1_000_000) as u128 };
             self.q(format!("q revops {} {}", back, sq));
+            // a minimum to receive taken from the quote: exactly the quoted amount, a hair below, one unit above
+            if fwd.starts_with("ok") { match mr_pick { 2 => mr = out_amt.to_string(), 3 => mr = (out_amt - out_amt / 1000).to_string(), 4 => mr = out_amt.saturating_add(1).to_string(), _ => {} } }
         }
         self.emit(format!("tx {} {} pm route {} {} {} {}", sender, funds_str(&[coin(amt, start_denom)]), s, mr, recv, ms));
     }
@@ -547,6 +550,58 @@ impl<'a> Gen<'a> {
             }
         }
         self.emit(format!("tx {} {} pm route {} - - 500000000000000000", sender, funds_str(&[coin(amt, start_denom)]), line(&ops)));
+    }
+
+    /// directed scenario for C13 / C12: a route that visits the SAME pool twice in the same direction (x→y in P, back through P or
+    /// another pool, x→y in P again): the simulation prices every hop on the stored state, so it OVERSTATES what the route delivers;
+    /// `minimum_receive` is set to the quote, a hair below it, and to what a first attempt really delivered — an executed route
+    /// must have delivered at least the minimum
+    pub fn op_scenario_revisit_min_receive(&mut self) {
+        let pools = self.pools();
+        let live: Vec<_> = pools.iter().filter(|p| !p.total_share.amount.is_zero() && p.pool_info.assets.len() == 2).collect();
+        if live.is_empty() { return self.op_provide(); }
+        let p = live[self.r.below(live.len() as u64) as usize];
+        let (x, y) = (p.pool_info.assets[0].denom.clone(), p.pool_info.assets[1].denom.clone());
+        let back = live.iter().find(|q| q.pool_info.pool_identifier != p.pool_info.pool_identifier && q.pool_info.assets.iter().any(|c| c.denom == x) && q.pool_info.assets.iter().any(|c| c.denom == y)).unwrap_or(&p);
+        let pid = p.pool_info.pool_identifier.clone();
+        let bid = back.pool_info.pool_identifier.clone();
+        let ops = format!("3 {} {} {} {} {} {} {} {} {}", x, y, pid, y, x, bid, x, y, pid);
+        let amt = p.pool_info.assets[0].amount.u128() / [10u128, 20, 100][self.r.below(3) as usize] + 1;
+        let sender = pick_user(self.r);
+        let sq = format!("3 {} {} {} {} {} {} {} {} {}", self.run.h.w.cd(&x), self.run.h.w.cd(&y), pid, self.run.h.w.cd(&y), self.run.h.w.cd(&x), bid, self.run.h.w.cd(&x), self.run.h.w.cd(&y), pid);
+        let fwd = self.q(format!("q simops {} {}", amt, sq));
+        let Some(quote) = fwd.split_whitespace().nth(1).and_then(|v| v.parse::<u128>().ok()) else { return self.op_route() };
+        for mr in [quote, quote - quote / 50, quote - quote / 5] {
+            self.emit(format!("tx {} {} pm route {} {} - 500000000000000000", sender, funds_str(&[coin(amt, x.clone())]), ops, mr));
+        }
+        self.emit(format!("tx {} {} pm route {} - - 500000000000000000", sender, funds_str(&[coin(amt, x.clone())]), ops));
+    }
+
+    /// directed scenario for C17: two pools whose identifiers are related as strings (`o.sN` is a prefix / substring of `o.sNx`);
+    /// swaps are switched off on ONE of them and routes through both are tried in both orders: the switch of a pool is that
+    /// pool's alone, whatever its identifier looks like
+    pub fn op_scenario_substring_pool_ids(&mut self) {
+        let tag = self.r.below(1000);
+        let cf = self.creation_funds();
+        let own = self.run.h.ownership("pm");
+        let owner = own.split('/').next().unwrap_or("owner").to_string();
+        self.emit(format!("tx u1 {} pm create cp 0 2 uom 6 uusdc 6 0 1000000000000000 0 - s{}x", funds_str(&cf), tag));
+        self.emit(format!("tx u1 {} pm create cp 0 2 uusdc 6 uusdt 6 0 1000000000000000 0 - s{}", funds_str(&cf), tag));
+        let mut d1 = vec![coin(80_000_000, "uom"), coin(80_000_000, "uusdc")]; d1.sort_by(|a, b| a.denom.cmp(&b.denom));
+        let mut d2 = vec![coin(80_000_000, "uusdc"), coin(80_000_000, "uusdt")]; d2.sort_by(|a, b| a.denom.cmp(&b.denom));
+        self.emit(format!("tx u2 {} pm provide o.s{}x - - - - -", funds_str(&d1), tag));
+        self.emit(format!("tx u2 {} pm provide o.s{} - - - - -", funds_str(&d2), tag));
+        let (long, short) = (format!("o.s{}x", tag), format!("o.s{}", tag));
+        let off = if self.r.chance(1, 2) { short.clone() } else { long.clone() };
+        self.emit(format!("tx {} 0 pm config - - - - {} false - -", owner, off));
+        let sender = pick_user(self.r);
+        // through the long-named pool first, then the short-named one — and the other way round
+        self.emit(format!("tx {} {} pm route 2 uom uusdc {} uusdc uusdt {} - - 500000000000000000", sender, funds_str(&[coin(10_000, "uom")]), long, short));
+        self.emit(format!("tx {} {} pm route 2 uusdt uusdc {} uusdc uom {} - - 500000000000000000", sender, funds_str(&[coin(10_000, "uusdt")]), short, long));
+        self.emit(format!("tx {} {} pm route 3 uom uusdc {} uusdc uom {} uom uusdc {} - - 500000000000000000", sender, funds_str(&[coin(10_000, "uom")]), long, long, long));
+        self.emit(format!("tx {} {} pm route 3 uusdt uusdc {} uusdc uusdt {} uusdt uusdc {} - - 500000000000000000", sender, funds_str(&[coin(10_000, "uusdt")]), short, short, short));
+        self.emit(format!("tx {} 0 pm config - - - - {} true - -", owner, off));
+        self.emit(format!("tx {} {} pm route 2 uom uusdc {} uusdc uusdt {} - - 500000000000000000", sender, funds_str(&[coin(10_000, "uom")]), long, short));
     }
 
     /// directed scenario for C17: swaps are switched off on pool A; then the owner pauses deposits on ANOTHER pool B and later
@@ -1061,6 +1116,51 @@ impl<'a> Gen<'a> {
         self.emit(format!("tx {} 0 fm claim -", u));
     }
 
+    /// directed scenario for C06 / C07: two stakers of one LP token with a farm on it; after some epochs the FIRST claims
+    /// everything up to the current epoch, then the SECOND claims with an explicit `until_epoch` in the past (still after its own
+    /// cursor): the second claim is rightful — what others already took for later epochs must not make it fail — and pays exactly
+    /// the ledger's amount for the epochs it covers; both claim the rest afterwards
+    pub fn op_scenario_claim_until_past_epoch(&mut self) {
+        let Some(lp) = self.some_lp() else { return self.op_provide() };
+        let holders = self.lp_holders(&lp);
+        let Some(a) = holders.first().copied() else { return self.op_provide() };
+        let b = match holders.iter().copied().find(|h| *h != a) {
+            Some(b) => b,
+            None => {
+                let b = ["u1", "u2", "u3"].into_iter().find(|x| *x != a).unwrap();
+                let amt = self.run.h.w.balance(a, &lp) / 3 + 1;
+                self.emit(format!("send {} {} 1 {} {}", a, b, lp, amt));
+                b
+            }
+        };
+        if self.run.h.w.balance(a, &lp) < 10 || self.run.h.w.balance(b, &lp) < 10 { return self.op_provide(); }
+        let tag = self.r.below(10_000);
+        let cur = self.cur_epoch();
+        let cfg: mantra_dex_std::farm_manager::Config = self.run.h.w.app.wrap()
+            .query_wasm_smart(self.run.h.w.a("fm"), &mantra_dex_std::farm_manager::QueryMsg::Config {}).unwrap();
+        let real = self.run.h.w.rd(&lp);
+        if (self.farms().iter().filter(|f| f.lp_denom == real).count() as u32) < cfg.max_concurrent_farms {
+            let rate = 1000 + self.r.below(100_000) as u128;
+            let asset = coin(rate * 10, "uusdc");
+            let funds = self.farm_fee_funds(&asset);
+            self.emit(format!("tx u1 {} fm createfarm {} {} {} uusdc {} cu{}", funds_str(&funds), lp, cur + 1, cur + 11, rate * 10, tag));
+        }
+        let (ba, bb) = (self.run.h.w.balance(a, &lp), self.run.h.w.balance(b, &lp));
+        self.emit(format!("tx {} 1 {} {} fm createpos ca{} {} -", a, lp, (ba / 7 + 1).min(10u128.pow(20)), tag, DAY * 3));
+        self.emit(format!("tx {} 1 {} {} fm createpos cb{} {} -", b, lp, (bb / 5 + 1).min(10u128.pow(20)), tag, DAY * 9));
+        let days = 4 + self.r.below(3);
+        self.emit(format!("advance {}", days * DAY * 1_000_000_000));
+        let now = self.cur_epoch();
+        self.emit(format!("tx {} 0 fm claim -", a));
+        let past = now.saturating_sub(1 + self.r.below(2));
+        self.emit(format!("tx {} 0 fm claim {}", b, past));
+        self.emit(format!("tx {} 0 fm claim {}", b, past + 1));
+        self.emit(format!("tx {} 0 fm claim -", b));
+        self.emit(format!("advance {}", DAY * 1_000_000_000));
+        self.emit(format!("tx {} 0 fm claim {}", a, now));
+        self.emit(format!("tx {} 0 fm claim -", a));
+    }
+
     /// directed scenario for C07 / C11: more farms on one LP token than any default page size (10): the limit is
     /// raised to 11..13, that many farms are created with identifiers whose byte order differs from creation
     /// order, a user locks LP, two epochs pass and the user claims (every active farm must pay its share)
@@ -1293,7 +1393,8 @@ impl<'a> Gen<'a> {
             .query_wasm_smart(self.run.h.w.a("fm"), &mantra_dex_std::farm_manager::QueryMsg::Config {}).unwrap();
         if cfg.max_concurrent_farms < 2 { self.emit(format!("tx {} 0 fm config - - - - - 3 - - - - -", owner)); }
         let coll = ["u1", "u3"][self.r.below(2) as usize];
-        let creators: Vec<&str> = if self.r.chance(1, 2) { vec![coll] } else { vec![coll, if coll == "u1" { "u3" } else { "u1" }] };
+        // (under fault enumeration always two owners: a failing transfer to ONE of them must abort the exit, not reroute shares)
+        let creators: Vec<&str> = if !self.faults && self.r.chance(1, 2) { vec![coll] } else { vec![coll, if coll == "u1" { "u3" } else { "u1" }] };
         for (k, c) in creators.iter().enumerate() {
             let aa = 20_000 + self.r.below(1_000_000) as u128;
             let asset = coin(aa, "uusdc");
@@ -1314,6 +1415,9 @@ impl<'a> Gen<'a> {
         let amt = ((bal / 10).max(1000.min(bal / 3)) | 1).min(100_000_000_000_000_000_000 + self.r.below(1000) as u128);
         let dur = DAY * (30 + self.r.below(300));
         self.emit(format!("tx {} 1 {} {} fm createpos cf{} {} -", u, lp, amt, tag, dur));
+        // (a second position in the same LP token: the farm manager then holds more of it than the leaving position's amount)
+        let left = self.run.h.w.balance(u, &lp);
+        if left > 2 { self.emit(format!("tx {} 1 {} {} fm createpos cg{} {} -", u, lp, (left / 2).min(100_000_000_000_000_000_000), tag, dur)); }
         let adv3 = (1 + self.r.below(2)) * DAY * 1_000_000_000;
         self.emit(format!("advance {}", adv3));
         if self.r.chance(1, 2) { self.emit(format!("tx {} 0 fm closepos u-cf{} - -", u, tag)); self.emit(format!("advance {}", DAY * 1_000_000_000)); }
@@ -1772,7 +1876,7 @@ pub fn gen_pm_case(r: &mut Rng, id: u64, len: u64, faults: bool, o: &mut Out) {
         // everybody leaves a constant-product pool and somebody deposits again
         for _ in 0..2 { g.op_create_pool(); }
         for _ in 0..6 { g.op_provide(); }
-        match (id / 3) % 7 { 0 => g.op_scenario_disabled_route(), 1 => g.op_scenario_full_exit_redeposit(), 2 => g.op_scenario_twin_pools_cycle(), 3 => g.op_scenario_waived_creation_fee(),
+        match (id / 3) % 9 { 8 => g.op_scenario_substring_pool_ids(), 7 => g.op_scenario_revisit_min_receive(), 0 => g.op_scenario_disabled_route(), 1 => g.op_scenario_full_exit_redeposit(), 2 => g.op_scenario_twin_pools_cycle(), 3 => g.op_scenario_waived_creation_fee(),
             4 => g.op_scenario_disabled_withdraw_sibling(), 5 => g.op_scenario_broken_route_link(), _ => g.op_scenario_restated_toggle() }
     }
     while g.ops < len {
@@ -1782,7 +1886,7 @@ pub fn gen_pm_case(r: &mut Rng, id: u64, len: u64, faults: bool, o: &mut Out) {
             10..=19 => g.op_swap(),
             20..=23 => g.op_withdraw(),
             24..=27 => g.op_route(),
-            28 => match g.r.below(4) { 0 => g.op_scenario_disabled_route(), 1 => g.op_scenario_broken_route_link(), 2 => g.op_scenario_restated_toggle(), _ => g.op_route() },
+            28 => match g.r.below(5) { 0 => g.op_scenario_disabled_route(), 1 => g.op_scenario_broken_route_link(), 2 => g.op_scenario_restated_toggle(), 3 => g.op_scenario_revisit_min_receive(), _ => g.op_route() },
             29 | 30 => g.op_pm_config(),
             31 => g.op_own("pm"),
             32 => g.op_donate(),
@@ -1813,7 +1917,8 @@ pub fn gen_fm_case(r: &mut Rng, id: u64, len: u64, faults: bool, o: &mut Out) {
     for _ in 0..6 { g.op_provide(); }
     // every second case starts with one directed scenario, in rotation, whatever the seed
     if let Some(k) = scen {
-        match k % 20 {
+        match k % 21 {
+            20 => g.op_scenario_claim_until_past_epoch(),
             19 => g.op_scenario_whale_weights(),
             18 => g.op_scenario_refill_closed_via_pm(),
             17 => g.op_scenario_collector_owns_farm(),
